@@ -5,7 +5,8 @@
    store), then recover again.  Printed per case: the configuration, the layout, the size
    of the segment the compaction wrote, and what the implementation did:
      - the result of compact(),
-     - its store calls in order,
+     - its store calls in order, each with its outcome (OK; GB = the get returned bytes
+       damaged in transit, object at rest intact; EN = the call failed without effect),
      - the manifest afterwards (version, segments, next_segment_id),
      - the names of the objects that exist afterwards,
      - the contents of the new segment,
@@ -23,7 +24,7 @@ Record case13 := K13 {
   c_objs : list (name * sobj obj);
   c_sz : N;
   c_res : cres;
-  c_log : list call;
+  c_log : list (call * outcome);                (* the compaction's store calls with their outcomes *)
   c_after : option (N * list seginfo * N);     (* manifest afterwards; None = unchanged *)
   c_names : list name;                          (* objects existing afterwards, sorted *)
   c_newseg : option (list delta);               (* contents of the created segment *)
@@ -61,10 +62,11 @@ Definition opt_exact (a b : option (list delta)) : bool :=
 
 Definition check_with (v : variant) (k : case13) : bool :=
   let st := store13 k in
-  let '(w, r) := compact v (c_cc k) (c_now k) (c_sz k) (World st (repeat OOk 400) [] false) in
+  let '(w, r) := compact v (c_cc k) (c_now k) (c_sz k) (World st (map snd (c_log k)) [] false) in
   let st' := w_store w in
   bool_decide (r = c_res k) &&
-  bool_decide (map fst (rev (w_log w)) = c_log k) &&
+  bool_decide (rev (w_log w) = c_log k) &&
+  bool_decide (w_io w = []) &&
   negb (w_crashed w) &&
   match c_after k, st' !! NMan with
   | Some (ver, segs, nxt), Some (Whole (OMan m)) =>
